@@ -95,13 +95,14 @@ def _pointer(err, doc):
 
 def _count_branches(acc, node):
     if isinstance(node, dict):
-        if "kind" in node and "name" in node:
+        # (a `members` mapping can itself have members called kind / name / cls: only strings are tags)
+        if isinstance(node.get("kind"), str) and isinstance(node.get("name"), str):
             acc.counters["kind:" + str(node["kind"])] += 1
             for k in node:
                 acc.counters[f"key:{node['kind']}.{k}"] += 1
-        if "cls" in node:
+        if isinstance(node.get("cls"), str):
             acc.counters["expr:" + node["cls"]] += 1
-        if "kind" in node and "value" in node and "name" not in node:
+        if isinstance(node.get("kind"), str) and "value" in node and "name" not in node:
             acc.counters["section:" + str(node["kind"])] += 1
         for v in node.values():
             _count_branches(acc, v)
